@@ -47,6 +47,11 @@ func q(s string) string { return `"` + s + `"` }
 // plain threads (there a goroutine that never finishes is a deadlock of the program).
 var goFunc = "vrt.GoLib"
 
+// sawTryLock: some rewritten file calls TryLock/TryRLock. The quick tier drops the scheduling point before
+// a pure release (a release commutes to the left of whatever other threads do -- as long as they can only
+// BLOCK on the lock). A TryLock sees whether the lock is held, so with one in the program the points stay.
+var sawTryLock bool
+
 type listPkg struct {
 	ImportPath string
 	Dir        string
@@ -224,6 +229,9 @@ func (r *fileRewriter) rewrite() {
 				}
 			}
 		case *ast.CallExpr:
+			if sel, ok := x.Fun.(*ast.SelectorExpr); ok && (sel.Sel.Name == "TryLock" || sel.Sel.Name == "TryRLock") && len(x.Args) == 0 {
+				sawTryLock = true // the state of a lock is observable without blocking: see the generated vrt file below
+			}
 			if id, ok := x.Fun.(*ast.Ident); ok && id.Obj == nil {
 				switch id.Name {
 				case "close":
@@ -664,6 +672,11 @@ func main() {
 			}
 			overlay[filepath.Join(*repo, "vrtshim", pkg, filepath.Base(f))] = f
 		}
+	}
+	if sawTryLock {
+		gen := filepath.Join(*out, "zz_trylock_gen.go")
+		os.WriteFile(gen, []byte("//go:build verif\n\npackage vrt\n\nfunc init() { LockStateObservable = true }\n"), 0o644)
+		overlay[filepath.Join(*repo, "vrtshim", "vrt", "zz_trylock_gen.go")] = gen
 	}
 	b, _ := json.MarshalIndent(map[string]any{"Replace": overlay}, "", " ")
 	if err := os.WriteFile(filepath.Join(*out, "overlay.json"), b, 0o644); err != nil {
